@@ -489,21 +489,29 @@ def run_cli(ctx, rng, i):
             for t_ in gen.tokens_of(s_['root']):
                 if rng.random() < 0.3 and t_['w'] not in gen.PUNCT:
                     t_['w'] = rng.choice(['Übung', 'café', 'Ärger', 'ß'])
-    cli_case(ctx, bank, system, pos, sfmt, edit, senc, denc,
-             top=rng.random() < 0.3)
+    r = rng.random()
+    cli_case(ctx, bank if r >= 0.08 else [], system, pos, sfmt, edit, senc,
+             denc, top=rng.random() < 0.3, nohead=0.08 <= r < 0.22,
+             existing=rng.random() < 0.4 or r < 0.08, rng=rng)
 
 
 def cli_case(ctx, bank, system, pos, sfmt='export', edit=False,
-             senc='utf-8', denc='utf-8', top=False):
+             senc='utf-8', denc='utf-8', top=False, nohead=False,
+             existing=False, rng=None):
     text = {'export': lambda: codec.export_encode(bank),
             'tigerxml': lambda: codec.tigerxml_encode(bank, encoding=senc),
             'discobrackets': lambda: codec.discobrackets_encode(bank),
             'brackets': lambda: codec.brackets_encode(bank)}[sfmt]()
     src = common.write(ctx.path('.' + sfmt), text, senc)
     dest = ctx.path('.trans')
+    if existing:
+        # the destination exists already and is longer than what is to come
+        common.write(dest, 'Altlast ||| SHIFT SHIFT\n' * 400, denc)
+        ctx.stratum('cli: destination file existed')
     args = ['transitions', src, dest, system, '--transform'] + \
         (['punctuation_delete'] if edit else []) + \
-        ['negra_mark_heads', 'binarize'] + (['add_topnode'] if top else []) \
+        ([] if nohead else ['negra_mark_heads']) + ['binarize'] + \
+        (['add_topnode'] if top else []) \
         + ['--src-format', sfmt,
          '--src-opts', 'quiet', '--src-enc', senc, '--dest-enc', denc]
     if edit:
@@ -526,7 +534,7 @@ def cli_case(ctx, bank, system, pos, sfmt='export', edit=False,
         args += ['--dest-opts', 'pos']
     case = {'kind': 'cli', 'bank': bank, 'system': system, 'pos': pos,
             'sfmt': sfmt, 'edit': edit, 'senc': senc, 'denc': denc,
-            'top': top}
+            'top': top, 'nohead': nohead, 'existing': existing}
     bank = bank_expected
     if top:
         # a transformation that returns a new root: the oracle runs on it
@@ -536,10 +544,17 @@ def cli_case(ctx, bank, system, pos, sfmt='export', edit=False,
         ctx.stratum('cli with a transformation that returns a new root')
     rc, out, err = common.cli(args)
     ctx.hook('cli.transitions')
+    if rc != 0 and nohead:
+        # heads were never marked: the run as a whole is refused; had it
+        # reported success, every tree would have to have its line
+        ctx.stratum('cli run refused (heads not marked)')
+        return
     if rc != 0:
         ctx.fail('C10:cli-exit-status', case, 'exit %r: %s'
                  % (rc, common.tail(err)))
         return
+    if not bank:
+        ctx.stratum('cli: source without sentences')
     words = [[(t['w'], t['p']) for t in sorted(gen.tokens_of(s['root']),
                                                key=lambda t: t['n'])]
              for s in bank]
@@ -678,7 +693,7 @@ def shard(ctx):
     for i in ctx.indices(ctx.pick(200, 15000)):
         rng = ctx.rng('writer', i)
         run_writer(ctx, rng, pools, long=i % 100 == 7)
-    for i in ctx.indices(ctx.pick(48, 3000)):
+    for i in ctx.indices(ctx.pick(128, 3000)):
         run_cli(ctx, ctx.rng('cli', i), i)
 
 
@@ -767,6 +782,7 @@ def replay(ctx, case):
         cli_case(ctx, case['bank'], case['system'], case['pos'],
                  case.get('sfmt', 'export'), case.get('edit', False),
                  case.get('senc', 'utf-8'), case.get('denc', 'utf-8'),
-                 case.get('top', False))
+                 case.get('top', False), case.get('nohead', False),
+                 case.get('existing', False))
     else:
         writer_case(ctx, case, rng)
